@@ -171,6 +171,36 @@ fn distinguishers(view: &View, gens: &[(String, G1Projective)], m0: &Scalar, m1:
             }
         }
     }
+    // T6: the difference of two transmitted points carries no randomness: P_a − P_b = m·(Q_i − Q_j), = m·Q_i, or
+    //     = (m − o)·Q_i for another claim value o (two blinded points sharing their blinding term)
+    {
+        let pts: Vec<&(String, G1Projective)> = view.g1.iter().filter(|(n, _)| !n.contains("byte_ciphertext")).take(24).collect();
+        let mut cand: Vec<(String, G1Projective, G1Projective)> = vec![];
+        for (i, (qn, _)) in gens.iter().enumerate() {
+            cand.push((qn.clone(), mq0[i], mq1[i]));
+            for (j, (q2n, _)) in gens.iter().enumerate() {
+                if i != j {
+                    cand.push((format!("{}-{}", qn, q2n), mq0[i] - mq0[j], mq1[i] - mq1[j]));
+                }
+            }
+            for o in others.iter().take(12) {
+                cand.push((format!("{}*(m-other)", qn), mq0[i] - gens[i].1 * *o, mq1[i] - gens[i].1 * *o));
+            }
+        }
+        for (i, (an, a)) in pts.iter().enumerate() {
+            for (bn, b) in pts.iter().skip(i + 1) {
+                let d = *a - *b;
+                if bool::from(d.is_identity()) {
+                    continue;
+                }
+                for (cn, x0, x1) in &cand {
+                    if (d == *x0) != (d == *x1) || (d == -*x0) != (d == -*x1) {
+                        found.push(format!("point-difference-is-candidate-image:{}:{}:{}", an, bn, cn));
+                    }
+                }
+            }
+        }
+    }
     // T3: ratio between two transmitted points
     for (an, a) in &view.g1 {
         for (bn, b) in &view.g1 {
@@ -273,7 +303,7 @@ fn other_value(c: &ClaimData, rng: &mut Rng) -> ClaimData {
 
 fn c07_suite<S: ShortGroupSignatureScheme>(em: &mut Emitter, base: &mut Rng, suite: &str) {
     let off = if suite == "bbs" { 0 } else { 1 };
-    let kinds = ["commitment", "commitment+range", "verenc", "verenc+scalar", "ved", "revocation", "membership", "signature-only", "equality", "equality2"];
+    let kinds = ["commitment", "commitment+range", "verenc", "verenc+scalar", "ved", "revocation", "membership", "signature-only", "equality", "equality2", "commitment-twice", "commitment-two-claims"];
     for k in 0..em.n(20, 200) {
         if !em.mine(2 * k + off) {
             continue;
@@ -295,7 +325,7 @@ fn c07_suite<S: ShortGroupSignatureScheme>(em: &mut Emitter, base: &mut Rng, sui
         };
         mix.disclosed = (0..mix.n_creds).map(|_| LABELS.iter().enumerate().take(n_claims).filter(|(i, _)| *i != ci && *i != 0 && rng.chance(1, 3)).map(|(_, l)| l.to_string()).collect()).collect();
         match kind {
-            "commitment" => mix.commitment = Some(ci),
+            "commitment" | "commitment-twice" | "commitment-two-claims" => mix.commitment = Some(ci),
             "commitment+range" => {
                 mix.commitment = Some(2);
                 mix.range = Some((Some(mix.age - 10), Some(mix.age + 10)));
@@ -339,6 +369,18 @@ fn c07_suite<S: ShortGroupSignatureScheme>(em: &mut Emitter, base: &mut Rng, sui
             m.insert(scn.sig_ids[1].clone(), 5usize);
             stmts.push(EqualityStatement { id: "eq1".into(), ref_id_claim_index: m }.into());
             scn.schema = credx::presentation::PresentationSchema::new_with_id(&stmts, &scn.schema.id);
+        }
+        // two commitment statements sharing the blinder generator: on the same claim under another message generator,
+        // or on another hidden claim under the same generators — their blinding factors must be independent
+        if kind == "commitment-twice" {
+            scn.add_second_commitment(rng, ci, false);
+        }
+        if kind == "commitment-two-claims" {
+            let cj = (1..n_claims).find(|j| *j != ci && !mix.disclosed[0].contains(&LABELS[*j].to_string()));
+            match cj {
+                Some(cj) => scn.add_second_commitment(rng, cj, k % 4 < 2),
+                None => continue,
+            }
         }
         let scn = scn;
         let p = match scn.create() {
@@ -596,6 +638,24 @@ fn links(a: &View, b: &View, gens: &[(String, G1Projective)]) -> Vec<String> {
             out.push(format!("equal-g2:{}", n));
         }
     }
+    // the difference of two G1 leaves is a constant of the credential (two blinded points sharing their blinding term)
+    {
+        let n = a.g1.len().min(b.g1.len()).min(24);
+        for i in 0..n {
+            if a.g1[i].0.contains("byte_ciphertext") {
+                continue;
+            }
+            for j in i + 1..n {
+                if a.g1[j].0.contains("byte_ciphertext") {
+                    continue;
+                }
+                let da = a.g1[i].1 - a.g1[j].1;
+                if !bool::from(da.is_identity()) && da == b.g1[i].1 - b.g1[j].1 {
+                    out.push(format!("equal-g1-difference:{}:{}", a.g1[i].0, a.g1[j].0));
+                }
+            }
+        }
+    }
     // nonce reuse across presentations: equal difference quotients at two positions would be a common secret
     if a.challenge != b.challenge {
         let inv = (a.challenge - b.challenge).invert().unwrap();
@@ -690,8 +750,27 @@ fn c12_suite<S: ShortGroupSignatureScheme>(em: &mut Emitter, base: &mut Rng, sui
         for d in mix.disclosed.iter_mut() {
             d.retain(|l| l != "id");
         }
+        // every third pair: two commitment statements with the same generators on two hidden claims (the holders differ in one of them)
+        let two_commitments = k % 3 == 1 && mix.n_claims >= 4;
+        if two_commitments {
+            mix.commitment = Some(2);
+            mix.range = None;
+            for d in mix.disclosed.iter_mut() {
+                d.retain(|l| l != "age" && l != "ssn");
+            }
+            if matches!(mix.verenc, Some((2, _)) | Some((3, _))) {
+                mix.verenc = None;
+            }
+            if matches!(mix.ved, Some(2) | Some(3)) {
+                mix.ved = None;
+            }
+        }
         // the disclosed claims are equal for both holders by construction below
-        let scn_a = Scn::<S>::build(rng, &mix);
+        let mut scn_a = Scn::<S>::build(rng, &mix);
+        if two_commitments {
+            scn_a.add_second_commitment(rng, 3, true);
+        }
+        let scn_a = scn_a;
         // a second credential of the same issuer with the same claims except the hidden identifier
         let mut claims_b = scn_a.bundles[0].credential.claims.clone();
         claims_b[0] = RevocationClaim::from(format!("other-holder-{}", k)).into();
@@ -700,6 +779,9 @@ fn c12_suite<S: ShortGroupSignatureScheme>(em: &mut Emitter, base: &mut Rng, sui
             if ci > 0 && ci < claims_b.len() {
                 claims_b[ci] = other_value(&claims_b[ci], rng);
             }
+        }
+        if two_commitments {
+            claims_b[3] = other_value(&claims_b[3], rng);
         }
         let mut issuer = scn_a.issuers[0].clone();
         let bundle_b = match issuer.sign_credential(&claims_b) {
@@ -746,7 +828,7 @@ fn c12_suite<S: ShortGroupSignatureScheme>(em: &mut Emitter, base: &mut Rng, sui
 pub fn gen_c12(em: &mut Emitter, rng: &mut Rng) {
     em.rule = "pairs of honest presentations over generated statement graphs (no statement that deliberately derives a pseudonym): two from one \
                credential (same or different nonce) vs one each from two credentials of the same issuer with identical disclosed claims; linking tests: \
-               leaf equality at equal positions (scalars, G1, G2), small or repeated cross-presentation difference quotients (nonce reuse), pairing \
+               leaf equality at equal positions (scalars, G1, G2), equal differences of G1 leaves (two commitment statements with common generators), small or repeated cross-presentation difference quotients (nonce reuse), pairing \
                cross-ratio e(P_a,Q_b)=e(P_b,Q_a) for G1 leaves P and G2 leaves Q. oracle: a test holding for the same-credential pair only".into();
     c12_suite::<Bbs>(em, rng, "bbs");
     c12_suite::<Ps>(em, rng, "ps");
